@@ -417,6 +417,11 @@ nni_msg_alloc(nni_msg **mp, size_t sz)
 	nni_msg *m;
 	int      rv;
 
+	// Leave room for the 64 bytes of headroom and tailroom added below.
+	if (sz > (SIZE_MAX - 64)) {
+		return (NNG_ENOMEM);
+	}
+
 	if ((m = NNI_ALLOC_STRUCT(m)) == NULL) {
 		return (NNG_ENOMEM);
 	}
